@@ -83,6 +83,10 @@ pub enum Funds {
     /// (cw20 configurations) one native coin whose bank denom is spelled exactly like the token address
     TokenNamedDenom,
     TwoDenoms,
+    /// [0 of the stake denom, 1 of another denom]
+    ZeroRightThenForeign,
+    /// [1 of another denom, 0 of the stake denom]
+    ForeignThenZeroRight,
     None,
 }
 
@@ -279,6 +283,8 @@ impl StakeModel {
             Funds::CaseDenom => vec![coin(1, CASED)],
             Funds::TokenNamedDenom => vec![coin(1, a(TOKEN))],
             Funds::TwoDenoms => vec![coin(1, OTHER), coin(1, DENOM)],
+            Funds::ZeroRightThenForeign => vec![coin(0, DENOM), coin(1, OTHER)],
+            Funds::ForeignThenZeroRight => vec![coin(1, OTHER), coin(0, DENOM)],
             Funds::None => vec![],
         }
     }
@@ -291,6 +297,9 @@ fn label(act: &Act) -> &'static str {
         Act::Bond { funds: Funds::CaseDenom, .. } => "Bond(denom differing in letter case)",
         Act::Bond { funds: Funds::TokenNamedDenom, .. } => "Bond(native coin named like the token address)",
         Act::Bond { funds: Funds::TwoDenoms, .. } => "Bond(two denoms)",
+        Act::Bond { funds: Funds::ZeroRightThenForeign, .. } | Act::Bond { funds: Funds::ForeignThenZeroRight, .. } => {
+            "Bond(zero of the stake denom + a foreign coin)"
+        }
         Act::Bond { funds: Funds::None, .. } => "Bond(no funds)",
         Act::Cw20Bond { token: 0, .. } => "Send{Bond}(configured token)",
         Act::Cw20Bond { .. } => "Send{Bond}(foreign token)",
@@ -415,6 +424,8 @@ impl Model for StakeModel {
                     out.push(Act::Bond { u, funds: Funds::WrongDenom });
                     out.push(Act::Bond { u, funds: Funds::CaseDenom });
                     out.push(Act::Bond { u, funds: Funds::TwoDenoms });
+                    out.push(Act::Bond { u, funds: Funds::ZeroRightThenForeign });
+                    out.push(Act::Bond { u, funds: Funds::ForeignThenZeroRight });
                     out.push(Act::Bond { u, funds: Funds::None });
                 }
             }
